@@ -429,6 +429,25 @@ def check_dict_typing(run: Run, ctx, m, tt, rule: str) -> None:
                 g = a.args[0]
                 conj = g.elt.values if isinstance(g.elt, ast.BoolOp) and isinstance(g.elt.op, ast.And) else [g.elt]
                 conj = list(conj) + [i_ for gen in g.generators for i_ in gen.ifs]
+                # a conjunct that is a call of a package predicate whose body is `return a and b and c`: its conjuncts
+                expanded = []
+                for cnd in conj:
+                    tgt_ = m.lookup_target(m.resolve_dotted(f_.module, f_, cnd.func.id)) if isinstance(cnd, ast.Call) and isinstance(cnd.func, ast.Name) else None
+                    body_ = [b_ for b_ in tgt_.node.body if not (isinstance(b_, ast.Expr) and isinstance(b_.value, ast.Constant))] if isinstance(tgt_, FuncInfo) and not isinstance(tgt_.node, ast.Lambda) else []
+                    if len(body_) == 1 and isinstance(body_[0], ast.Return) and body_[0].value is not None and len(tgt_.pos_params) == len(cnd.args) == 1:
+                        rv_ = body_[0].value
+                        parts_ = rv_.values if isinstance(rv_, ast.BoolOp) and isinstance(rv_.op, ast.And) else [rv_]
+                        expanded += list(parts_)
+                        for x in ast.walk(rv_):
+                            if isinstance(x, ast.Call) and isinstance(x.func, ast.Attribute) and x.func.attr == "isidentifier" and not _under_not_in(x, rv_):
+                                ident = True
+                            if isinstance(x, ast.Call) and ast.unparse(x.func).split(".")[-1] == "iskeyword" and _under_not_in(x, rv_):
+                                kw = True
+                            if isinstance(x, ast.Call) and isinstance(x.func, ast.Name) and x.func.id == "isinstance" and len(x.args) == 2 and ast.unparse(x.args[1]) == "str":
+                                isstr = True
+                    else:
+                        expanded.append(cnd)
+                conj = expanded
                 for cnd in conj:
                     txt = ast.unparse(cnd)
                     neg = isinstance(cnd, ast.UnaryOp) and isinstance(cnd.op, ast.Not)
@@ -442,6 +461,21 @@ def check_dict_typing(run: Run, ctx, m, tt, rule: str) -> None:
         run.check(kw, rule, vd, stmt_of(c), "make_dataclass only when no key is a Python keyword", "make_dataclass is fed keys that may be Python keywords: {'class': ..} / {'pass': ..} raises TypeError ('Field names must not be keywords') - an internal error for a valid expression")
         run.check(uniq, rule, vd, stmt_of(c), "make_dataclass only when keys are unique", "make_dataclass is fed possibly repeated keys (TypeError: field name duplicated)")
         run.check(not extra, rule, vd, stmt_of(c), "a dictionary literal is typed whenever its keys can be dataclass fields", f"a dictionary literal is typed only when, in addition, every key satisfies {' and '.join(extra)}: dictionaries with other perfectly good field names (e.g. 'type', 'match') stay untyped, so calls reached through their fields are neither normalised nor followed", "isinstance(n, str) and n.isidentifier() and not keyword.iskeyword(n)", key="dictionary typing has an undesigned condition on the keys")
+
+
+def _under_not_in(x: ast.AST, root: ast.AST) -> bool:
+    """x sits under an odd number of `not` inside root (parents computed locally: root may belong to another function)"""
+    par = {}
+    for n in ast.walk(root):
+        for c in ast.iter_child_nodes(n):
+            par[id(c)] = n
+    k = 0
+    cur = x
+    while id(cur) in par:
+        cur = par[id(cur)]
+        if isinstance(cur, ast.UnaryOp) and isinstance(cur.op, ast.Not):
+            k += 1
+    return k % 2 == 1
 
 
 def _under_not(x: ast.AST, root: ast.AST) -> bool:
